@@ -44,9 +44,14 @@ def describe(tier):
 
 
 def wpattern(shape, k=0):
+    """Dyadic weights in {1/4..4} without the translational symmetry that would let
+    block averages of the weights integrate smooth data correctly by coincidence."""
     w = np.zeros(shape)
     for idx in np.ndindex(*shape):
-        w[idx] = 2.0 ** ((sum(idx) + k) % 3 - 1)
+        i = idx[0]
+        j = idx[1] if len(idx) > 1 else 0
+        l = idx[2] if len(idx) > 2 else 0
+        w[idx] = 2.0 ** ((i * i + 3 * j + 5 * l * l + i * j + j * l + k) % 5 - 2)
     return w
 
 
@@ -73,17 +78,18 @@ def cases(tier):
     for shape in [(4,), (2, 4), (2, 2, 2)]:
         for g, wf in [("Geometry", None), ("WeightedGeometry", "ndarray"), ("ExtrudedPorousGeometry", "Image+scalar")]:
             for payload in ("scalar", "vector", "series", "vector-series"):
-                out.append({"kind": "normalize", "geom": g, "wform": wf, "shape": list(shape), "payload": payload})
+                for scale in (0, -10, -20):  # voxel sizes x 2^scale: metre-, millimetre- and micrometre-sized samples
+                    out.append({"kind": "normalize", "geom": g, "wform": wf, "shape": list(shape), "payload": payload, "scale": scale})
     out.sort(key=lambda c: (c["kind"] != "integrate", int(np.prod(c["shape"])), len(c["shape"])))
     return out
 
 
-def make_geometry(gname, wform, shape):
+def make_geometry(gname, wform, shape, scale=0):
     """Returns (geometry factory, reference effective volume per native voxel)."""
     import darsia
 
     dim = len(shape)
-    vs = VS[:dim]
+    vs = [v * 2.0**scale for v in VS[:dim]]
     vol = float(np.prod(vs))
     meta = dict(space_dim=dim, num_voxels=list(shape), voxel_size=list(vs))
 
@@ -111,14 +117,14 @@ def payload_shape(payload):
     return {"scalar": (), "vector": (2,), "series": (3,), "vector-series": (3, 2)}[payload]
 
 
-def wrap(arr, shape_native, payload, as_image):
+def wrap(arr, shape_native, payload, as_image, scale=0):
     """Hand the data to integrate() as a raw array or as an Image at its own resolution."""
     if not as_image:
         return arr
     import darsia
 
     dim = len(shape_native)
-    kw = dict(space_dim=dim, dimensions=[VS[a] * shape_native[a] for a in range(dim)], scalar=payload in ("scalar", "series"))
+    kw = dict(space_dim=dim, dimensions=[VS[a] * 2.0**scale * shape_native[a] for a in range(dim)], scalar=payload in ("scalar", "series"))
     if payload in ("series", "vector-series"):
         kw["series"] = True
         kw["time"] = [0.0, 1.0, 2.0]
@@ -268,7 +274,8 @@ def run_history(case, r):
             ds = tuple(shape[a] // fac[a] for a in range(dim))
         else:
             ds = shape
-        return (1.0 + np.arange(int(np.prod(ds)), dtype=float)).reshape(ds)
+        k = np.arange(int(np.prod(ds)))
+        return (1.0 + (7 * k * k + 3 * k) % 11).astype(float).reshape(ds)  # not affine in the index
 
     def call(g, op):
         name, cont = op
@@ -324,23 +331,25 @@ def run_history(case, r):
 
 
 def run_normalize(case, r):
-    gname, wform, shape, payload = case["geom"], case["wform"], tuple(case["shape"]), case["payload"]
-    fresh, effvol = make_geometry(gname, wform, shape)
+    gname, wform, shape, payload, scale = case["geom"], case["wform"], tuple(case["shape"]), case["payload"], case.get("scale", 0)
+    fresh, effvol = make_geometry(gname, wform, shape, scale)
     ps = payload_shape(payload)
     full = shape + ps
     n = int(np.prod(full))
-    img = wrap((1.0 + (np.arange(n) % 5)).reshape(full), shape, payload, True)
-    ref = wrap((2.0 + (np.arange(n) % 3) * 0.5).reshape(full), shape, payload, True)
-    cell = f"C03/normalize/{wclass(wform)}/payload={payload}"
+    img = wrap((1.0 + (np.arange(n) % 5)).reshape(full), shape, payload, True, scale)
+    ref = wrap((2.0 + (np.arange(n) % 3) * 0.5).reshape(full), shape, payload, True, scale)
+    cell = f"C03/normalize/{wclass(wform)}/payload={payload}/scale=2^{scale}"
     g = fresh()
     before = digest(img), digest(ref)
     out = g.normalize(img, ref)
-    r.check(close(fresh().integrate(out), fresh().integrate(ref)), cell, "after normalisation the image and the reference have equal integrals, per time step and component", got=fresh().integrate(out), want=fresh().integrate(ref))
+    want = np.asarray(fresh().integrate(ref), dtype=float)
+    got = np.asarray(fresh().integrate(out), dtype=float)
+    r.check(got.shape == want.shape and bool(np.all(np.abs(got - want) <= 1e-12 * np.abs(want))), cell, "after normalisation the image and the reference have equal integrals, per time step and component (relative 1e-12)", got=got, want=want)
     out2, ratio = fresh().normalize(img, ref, return_ratio=True)
-    r.check(np.array_equal(out2.img, out.img) and close(ratio, np.asarray(fresh().integrate(ref)) / np.asarray(fresh().integrate(img))), cell, "return_ratio returns the same image and the ratio of the integrals")
+    r.check(np.array_equal(out2.img, out.img) and np.allclose(ratio, np.asarray(fresh().integrate(ref)) / np.asarray(fresh().integrate(img)), rtol=1e-12, atol=0), cell, "return_ratio returns the same image and the ratio of the integrals")
     r.check((digest(img), digest(ref)) == before, cell + "/inputs", "normalize leaves both inputs unchanged")
     r.nontriv(case)
-    r.outcome((case, np.asarray(fresh().integrate(out)).tolist()))
+    r.outcome((case, got.tolist()))
 
 
 def run_case(case, r):
